@@ -272,9 +272,21 @@ fn c03_collect(s: &In, at_end: bool, found: &mut Vec<Violation>) {
                 found.push(viol(s, "error-not-reported", format!("q{qos}"), format!("handler failed for id {id}; control service saw {stops:?}")));
             }
         }
-        if let Some((_, GateOutcome::Nack(_))) = any_exit {
+        if let Some((_, GateOutcome::Nack(c))) = any_exit {
             if firsts.iter().any(|a| a.1.unwrap_or(0) < 0x80) {
                 found.push(viol(s, "ack-after-error", format!("q{qos} nack"), format!("handler mapped an error for id {id} but a success acknowledgement was written")));
+            }
+            // "v5: the negative acknowledgement the application mapped the error to": when nothing else can have ended
+            // the connection (no handler failed with an unmapped error, no QoS 0 handler failed at all), the mapped
+            // acknowledgement must be written and the connection must go on (mutation-sweep survivor: the mapping
+            // was skipped and the connection ended with the application's error)
+            let other_cause = hs.iter().any(|h| matches!(h.exit, Some((_, GateOutcome::Err))) || (h.qos == 0 && matches!(h.exit, Some((_, GateOutcome::Nack(_))))));
+            if at_end && !other_cause {
+                if !healthy(s) {
+                    found.push(viol(s, "nack-ended-connection", format!("q{qos}"), format!("handler mapped its error for id {id} to {c:#x} and nothing else failed, yet the connection ended: {stops:?}")));
+                } else if !firsts.iter().any(|a| a.1 == Some(c)) {
+                    found.push(viol(s, "nack-missing", format!("q{qos}"), format!("handler mapped its error for id {id} to {c:#x} but no such acknowledgement was written")));
+                }
             }
         }
     }
